@@ -205,6 +205,21 @@ example : let p := clPage 1 true
     f ∈ p.frags ∧ f ∉ excludePage defaultConfig clDoc p := by
   decide +kernel
 
+/-- **charlevel_removed_only_where_a_line_repeats** (the part of the text clause that does hold on
+character-level pages). Whatever kind of page: if exclusion removes a fragment, then in the band it
+lies in, THIS page carries a marginal line (an assembled line on a character-level page) whose
+digit-normalised text also occurs on another page — a group of candidates on at least two distinct
+pages, one of them this page. Where no line of a band repeats on another page, nothing is removed
+from that band. -/
+theorem charlevel_removed_only_where_a_line_repeats (cfg : Config) (pages : List Page) (p : Page) (f : Frag)
+    (hf : f ∈ p.frags) (hrem : f ∉ excludePage cfg pages p) :
+    ∃ k key, inRegion k (bands cfg p.frags p.height) f = true ∧
+      2 ≤ (distinctPages (groupOf (extractCandidates cfg k (preprocessPages pages)) key)).length ∧
+      ∃ c ∈ groupOf (extractCandidates cfg k (preprocessPages pages)) key, c.page = p.index := by
+  obtain ⟨k, r, _, hdet, hpage, hin⟩ := removed_only_if_charlevel_partial cfg pages p f hf hrem
+  obtain ⟨h1, h2, _, h4, _⟩ := hdet
+  exact ⟨k, r.pattern, hin, by omega, (h4 p.index).mp hpage⟩
+
 /-! ## Documents without repetition are returned unchanged -/
 
 /-- **no_repetition_identity.** If no digit-normalised marginal text occurs on two different pages
@@ -401,6 +416,135 @@ theorem repeated_removed_everywhere (cfg : Config) (pages : List Page) (k : Kind
         simp [regionMatches, hpn, textsMatch, hct, hctrim, hckey, hk]
   rw [htrue] at hfalse
   cases hfalse
+
+/-- **repeated_on_enough_pages_removed** (liveness for headers that do not run on every page: odd/even
+alternation, all pages but the cover, a chapter's pages). Let the pages `S` of a word-level document —
+with distinct indices, at least `minOccurrences` of them — each carry, in the top (resp. bottom) band,
+a fragment with digit-normalised text `key`, and let fragments with that normalised text occur in this
+band, on ANY page, only at the one position `(x0, d0)`. If `key` is longer than two bytes or a
+page-number pattern, every such fragment is removed from every page of `S`. -/
+theorem repeated_on_enough_pages_removed (cfg : Config) (pages S : List Page) (k : Kind) (key : Str) (x0 d0 : Rat)
+    (htol1 : 0 ≤ cfg.positionTolerance) (htol2 : 0 ≤ cfg.xPositionTolerance)
+    (hmin : cfg.minPages ≤ pages.length)
+    (hS : ∀ p ∈ S, p ∈ pages) (hSnd : (S.map (·.index)).Nodup)
+    (hSocc : minOccurrences cfg pages.length ≤ S.length)
+    (hword : ∀ p ∈ pages, isCharacterLevel p.frags = false)
+    (hkey : 2 < key.length ∨ isPageNumberPattern key = true)
+    (hpresent : ∀ p ∈ S, ∃ f ∈ p.frags, inRegion k (bands cfg p.frags p.height) f = true ∧
+      normalize (trimSpace f.text) = key)
+    (hpos : ∀ p ∈ pages, ∀ f ∈ p.frags, inRegion k (bands cfg p.frags p.height) f = true →
+      normalize (trimSpace f.text) = key → f.x = x0 ∧ regionDist k (bands cfg p.frags p.height) f = d0) :
+    ∀ p ∈ S, ∀ f ∈ p.frags, inRegion k (bands cfg p.frags p.height) f = true →
+      normalize (trimSpace f.text) = key → f ∉ excludePage cfg pages p := by
+  have hpre := preprocessPages_wordLevel hword
+  have hgroup_pos : ∀ c ∈ groupOf (extractCandidates cfg k pages) key, c.x = x0 ∧ c.y = d0 := by
+    intro c hc
+    obtain ⟨hc1, hc2⟩ := List.mem_filter.mp hc
+    obtain ⟨p, hp, hcp⟩ := mem_extractCandidates.mp hc1
+    obtain ⟨f, hf, hin, rfl⟩ := mem_pageCandidates.mp hcp
+    exact hpos p hp f hf hin (by simpa using hc2)
+  have hgroup_page : ∀ p ∈ S, ∃ c ∈ groupOf (extractCandidates cfg k pages) key, c.page = p.index := by
+    intro p hp
+    obtain ⟨f, hf, hin, hk⟩ := hpresent p hp
+    refine ⟨{ text := trimSpace f.text, x := f.x, y := regionDist k (bands cfg p.frags p.height) f,
+              w := f.w, h := f.h, page := p.index }, ?_, rfl⟩
+    apply List.mem_filter.mpr
+    refine ⟨mem_extractCandidates.mpr ⟨p, hS p hp, mem_pageCandidates.mpr ⟨f, hf, hin, rfl⟩⟩, ?_⟩
+    simpa using hk
+  have hsub : S.map (·.index) ⊆ distinctPages (groupOf (extractCandidates cfg k pages) key) := by
+    intro i hi
+    obtain ⟨p, hp, rfl⟩ := List.mem_map.mp hi
+    obtain ⟨c, hc, e⟩ := hgroup_page p hp
+    exact mem_distinctPages.mpr ⟨c, hc, e⟩
+  have hcount : S.length ≤ (distinctPages (groupOf (extractCandidates cfg k pages) key)).length := by
+    have := List.Nodup.length_le_of_subset hSnd hsub
+    simpa using this
+  have h2 := two_le_minOccurrences cfg pages.length
+  have hlen2 : 2 ≤ (groupOf (extractCandidates cfg k pages) key).length := by
+    have h1 : (distinctPages (groupOf (extractCandidates cfg k pages) key)).length ≤
+        (groupOf (extractCandidates cfg k pages) key).length := distinctPages_length_le_group _
+    omega
+  have hcons := hasConsistentPosition_of_same htol1 htol2 _ hgroup_pos hlen2
+  obtain ⟨p0, hp0⟩ : ∃ p0, p0 ∈ S := by
+    cases S with
+    | nil => simp at hSocc; omega
+    | cons a _ => exact ⟨a, by simp⟩
+  have hkeymem : ∃ c ∈ extractCandidates cfg k pages, normalize c.text = key := by
+    obtain ⟨c, hc, _⟩ := hgroup_page p0 hp0
+    obtain ⟨hc1, hc2⟩ := List.mem_filter.mp hc
+    exact ⟨c, hc1, by simpa using hc2⟩
+  have hshort : (decide (key.length ≤ 2) && !isPageNumberPattern key) = false := by
+    rcases hkey with h | h
+    · have : ¬ key.length ≤ 2 := by omega
+      simp [this]
+    · simp [h]
+  obtain ⟨r, hreg⟩ : ∃ r, regionOf cfg k pages.length (extractCandidates cfg k pages) key = some r := by
+    unfold regionOf
+    simp only [hshort, Bool.false_eq_true, if_false, hcons, Bool.not_true]
+    have : ¬ (distinctPages (groupOf (extractCandidates cfg k pages) key)).length < minOccurrences cfg pages.length := by
+      omega
+    simp [this]
+  have hrmem : r ∈ (detect cfg pages).regions k := by
+    have hnot : ¬ pages.length < cfg.minPages := by omega
+    unfold detect
+    rw [if_neg hnot, hpre]
+    have := mem_findRepeatingPatterns.mpr ⟨key, hkeymem, hreg⟩
+    cases k <;> simpa [Result.regions] using this
+  obtain ⟨_, _, _, _, hpat, hpages, _, htxt, _⟩ := regionOf_eq_some hreg
+  intro p hp f hf hin hk hkept
+  have hfalse := (mem_filterFragments.mp hkept).2
+  rw [detect_cfg, hword p (hS p hp)] at hfalse
+  have htrue : isInHeaderFooter (detect cfg pages) p.index (bands cfg p.frags p.height) false f = true := by
+    apply isInHeaderFooter_eq_true.mpr
+    refine ⟨k, r, hrmem, ?_, hin, Or.inr ?_⟩
+    · rw [hpages, mem_sortInts]
+      obtain ⟨c, hc, e⟩ := hgroup_page p hp
+      exact mem_distinctPages.mpr ⟨c, hc, e⟩
+    · cases hpn : r.isPageNumber with
+      | true =>
+        have hne : key ≠ [] := by
+          intro e
+          subst e
+          rcases hkey with h | h
+          · simp at h
+          · rw [isPageNumberPattern_nil] at h; cases h
+        have hne' : key.isEmpty = false := by cases key with | nil => exact absurd rfl hne | cons _ _ => rfl
+        simp [regionMatches, hpn, hpat, hk, hne']
+      | false =>
+        obtain ⟨c, rest, hg, hct⟩ := htxt hpn
+        have hc : c ∈ groupOf (extractCandidates cfg k pages) key := by rw [hg]; simp
+        obtain ⟨hc1, hc2⟩ := List.mem_filter.mp hc
+        have hckey : normalize c.text = key := by simpa using hc2
+        have hctrim : trimSpace c.text = c.text := by
+          have := cand_text_trimmed (cfg := cfg) (k := k) (pages := pages) (c := c) hc1
+          exact this
+        simp [regionMatches, hpn, textsMatch, hct, hctrim, hckey, hk]
+  rw [htrue] at hfalse
+  cases hfalse
+
+/-- a four-page document whose header alternates: "Odd Title" on pages 1 and 3, "Even Title" on pages
+2 and 4, same position -/
+def oddEvenDoc : List Page :=
+  let hdr (t : Str) : Frag := { text := t, x := 72, y := 760, w := 60, h := 12, fs := 12 }
+  let body (c : Nat) : Frag := { text := [66, c], x := 72, y := 400, w := 20, h := 12, fs := 12 }
+  let odd : Str := [79, 100, 100, 32, 84, 105, 116, 108, 101]
+  let even : Str := [69, 118, 101, 110, 32, 84, 105, 116, 108, 101]
+  [ { index := 0, height := 792, frags := [hdr odd, body 49] }, { index := 1, height := 792, frags := [hdr even, body 50] },
+    { index := 2, height := 792, frags := [hdr odd, body 51] }, { index := 3, height := 792, frags := [hdr even, body 52] } ]
+
+/-- the hypotheses are satisfiable with `S` = the odd pages (2 = `minOccurrences` of 4 pages), … -/
+example : let S := oddEvenDoc.filter fun p => p.index % 2 == 0
+    (∀ p ∈ S, p ∈ oddEvenDoc) ∧ (S.map (·.index)).Nodup ∧ minOccurrences defaultConfig oddEvenDoc.length ≤ S.length ∧
+    (∀ p ∈ S, ∃ f ∈ p.frags, inRegion .header (bands defaultConfig p.frags p.height) f = true ∧
+      normalize (trimSpace f.text) = [79, 100, 100, 32, 84, 105, 116, 108, 101]) ∧
+    (∀ p ∈ oddEvenDoc, ∀ f ∈ p.frags, inRegion .header (bands defaultConfig p.frags p.height) f = true →
+      normalize (trimSpace f.text) = [79, 100, 100, 32, 84, 105, 116, 108, 101] →
+      f.x = 72 ∧ regionDist .header (bands defaultConfig p.frags p.height) f = 20) := by
+  decide +kernel
+
+/-- … and both alternating headers go from their pages -/
+example : oddEvenDoc.map (fun p => (excludePage defaultConfig oddEvenDoc p).map (·.text)) =
+    [[[66, 49]], [[66, 50]], [[66, 51]], [[66, 52]]] := by decide +kernel
 
 /-- `repeated_removed_everywhere` for the default configuration of `NewHeaderFooterDetector()`
 (tolerances 5/10 pt, ratio 0.5 so that `minOccurrences n = max 2 ⌊n/2⌋ ≤ n`, `MinPages = 2`). -/
